@@ -1064,13 +1064,6 @@ BUDGET = {"cg": (120, 1500), "cgscan": (25, 250), "lstsq": (30, 300), "atad": (9
           "bisect": (60, 700), "golden": (50, 600)}
 
 
-def _is_known(case):
-    """classification of cases that are instances of a recorded finding"""
-    if case.get("kind") == "cgscan":
-        return "cgscan-breakdown"
-    return None
-
-
 def correspond(ctx, model):
     _setup()
     cdir = common.CORPUS_DIR / PROP
@@ -1087,15 +1080,8 @@ def correspond(ctx, model):
             RUNNERS[kind](ctx, model, case)
 
 
-def _cgscan_witness():
-    return {"kind": "cgscan", "n": 2, "cplx": False, "A": [2.0, 1.0, 1.0, 3.0], "b": [0.0, 0.0], "x0": None, "maxiter": 3}
-
-
 def findings(ctx, model):
-    _setup()
-    if ctx.is_known("cgscan-breakdown"):
-        r = oracle_cgscan(_cgscan_witness())
-        ctx.known_finding("cgscan-breakdown", r is not None and "x_not_finite" in r)
+    pass  # no open finding for C14 (see the `fixed:` lines of known_findings.txt; their witnesses are corpus cases)
 
 
 def search(ctx, model, why):
